@@ -324,10 +324,45 @@ def preuse(mw):
     return mw
 
 
-def maybe_preuse(mw, key):
-    """Deterministically pre-use the instance for half of the cases (key: any hashable/JSON-able case identity)."""
+def maybe_preuse(mw, key, same=None):
+    """Deterministically pre-use the instance for part of the cases (key: any JSON-able case identity): on an
+    unrelated decoy library, or - for copy-mode instances, which must not touch their input - on the very library
+    (`same`) it is about to transform (a second application of one instance to the same objects must give the
+    same result as the first)."""
     import zlib
 
-    if zlib.crc32(repr(key).encode()) % 2 == 0:
+    h = zlib.crc32(repr(key).encode()) % 4
+    if h == 0:
         return preuse(mw)
+    if h == 1 and same is not None and not getattr(mw, "allow_inplace_modification", True):
+        preuse_on_edited(mw, same)
     return mw
+
+
+def preuse_on_edited(mw, lib):
+    """Apply a copy-mode instance to `lib` while its entries/strings hold other content (fields reversed, values
+    altered), then put the original content back: what the instance returns next must reflect the current content."""
+    saved = []
+    for b in lib.blocks:
+        if type(b) is Entry:
+            saved.append((b, b.fields, [(f, f.key, f.value) for f in b.fields]))
+            for f in b.fields:
+                if isinstance(f.value, str):
+                    f.value = f.value + " (before edit)"
+            b.fields = list(reversed(b.fields)) + [Field("addedbeforeedit", "{x}", 0)]
+        elif type(b) is String and isinstance(b.value, str):
+            saved.append((b, None, b.value))
+            b.value = b.value + " (before edit)"
+    try:
+        mw.transform(lib)
+    except Exception:
+        pass
+    finally:
+        for b, fields, old in saved:
+            if fields is None:
+                b.value = old
+            else:
+                b.fields = fields
+                for f, k, v in old:
+                    f.key = k
+                    f.value = v
